@@ -278,6 +278,8 @@ func (checkC01) Run(env *Env, sc *Scenario) (*Violation, error) {
 				sig := "ledgers of two replicas differ: " + msg
 				if cands, ok := tieAt[hh]; ok && onlyDustMoved(ref, hh, balAt[hh], cands, env, w) {
 					sig = "holder-staking rounding dust goes to a different one of several equal top stakers depending on map iteration order / sort stability"
+				} else if hh%144 == 0 && onlyStakingRowsDiffer(env, w, o, hh) {
+					sig = "holder-staking payout rows of equal stakes get different tx_index depending on map iteration order / sort stability (balances identical)"
 				}
 				viol = &Violation{Prop: "C01", Oracle: "replicas-agree", Signature: sig,
 					Detail: fmt.Sprintf("order %+v: first difference at height %d: %s", o, hh, msg)}
@@ -364,4 +366,43 @@ func onlyDustMoved(ref *Ref, h uint32, got map[factom.FAAddress]map[int]*big.Int
 		}
 	}
 	return sumW.Cmp(sumG) == 0
+}
+
+// onlyStakingRowsDiffer re-runs the canonical replica and replica o up to
+// height h and reports whether their ledgers differ only in history rows of
+// the holder-staking payout batch of that height (which of several equal
+// stakes got which tx_index), with identical balances.
+func onlyStakingRowsDiffer(env *Env, w *world.World, o c01Order, h uint32) bool {
+	dump := func(mode int, seed uint64) *sim.Dump {
+		simrt.Reset(mode, seed)
+		r := sim.NewReplica(w, env.Dir("rows"))
+		r.Follow = !o.CatchUp
+		if err := r.Start(); err != nil {
+			return nil
+		}
+		r.RunTo(h)
+		r.Stop()
+		d, err := r.FinalDump(true)
+		if err != nil || d.Synced != h {
+			return nil
+		}
+		return d
+	}
+	a, b := dump(0, 0), dump(o.Mode, o.Seed)
+	simrt.Reset(0, 0)
+	if a == nil || b == nil {
+		return false
+	}
+	txid := fmt.Sprintf("%064d", h)
+	for _, t := range sim.DiffTables(a, b) {
+		if t != "pn_history_transaction" && t != "pn_history_lookup" {
+			return false
+		}
+		for _, line := range sim.DiffText(a, b, t, 100000) {
+			if len(line) < 2+64 || line[2:2+64] != txid {
+				return false
+			}
+		}
+	}
+	return true
 }
